@@ -191,25 +191,222 @@ theorem hexLoop_ok (v : Int64) : ∀ (k : Nat) (n s : Int64) (acc out : Bytes), 
     | haz x => rw [hs] at h; cases h
     | unmodelled => rw [hs] at h; cases h
 
-/-- The recorded finding C10.hex.signedOverflow, exactly: `k` increments overflow when they do not fit. -/
-theorem hexLoop_haz (v : Int64) : ∀ (k : Nat) (n s : Int64) (acc : Bytes), 0 < k → n.toInt + k ≥ 2 ^ 63 →
-    hexLoop v k n s acc = .haz .signedOverflow := by
+/-! #### the digit loop against Spec.Text.hex -/
+
+theorem toNat_of_toInt (x : Int64) : (x.toUInt64.toNat : Int) = x.toInt % 2 ^ 64 := by
+  have h1 : x.toInt = (x.toUInt64.toNat : Int).bmod (2 ^ 64) := by
+    rw [← Int64.toNat_toBitVec]; exact BitVec.toInt_eq_toNat_bmod _
+  have h2 : x.toUInt64.toNat < 2 ^ 64 := x.toUInt64.toNat_lt
+  rw [h1]
+  have := Int.bmod_emod (x := (x.toUInt64.toNat : Int)) (m := 2 ^ 64)
+  simp only [Nat.reducePow] at this ⊢
+  omega
+
+/-- Arithmetic right shift of an `int64_t`, then the conversion to `uint64_t`. -/
+theorem shr_toNat (v : Int64) (j : Nat) (hj : ((Int64.ofNat j).toBitVec.smod 64).toNat = j) :
+    ((v >>> (Int64.ofNat j)).toUInt64.toNat : Int) = (v.toInt / ((2 ^ j : Nat) : Int)) % 2 ^ 64 := by
+  rw [toNat_of_toInt]
+  show (v >>> (Int64.ofNat j)).toBitVec.toInt % 2 ^ 64 = _
+  rw [Int64.toBitVec_shiftRight, BitVec.sshiftRight_eq', BitVec.toInt_sshiftRight, Int.shiftRight_eq_div_pow, hj]
+  rfl
+
+theorem and_f_toNat (x : UInt64) : (x &&& 0xf).toNat = x.toNat % 16 := by
+  rw [UInt64.toNat_and]
+  exact Nat.and_two_pow_sub_one_eq_mod x.toNat 4
+
+/-- `0xf & (val >> 4*j)` on the signed value is the j-th hexadecimal digit of the 64-bit two's-complement
+pattern, for every `int64_t` (negative ones included: the arithmetic shift only replicates the sign into
+bits that the mask removes). -/
+theorem nib_eq (v : Int64) (j : Nat) (h1 : 1 ≤ j) (h2 : j ≤ 15) :
+    ((v >>> (Int64.ofNat (4 * j))).toUInt64 &&& 0xf).toNat = v.toUInt64.toNat / 16 ^ j % 16 := by
+  have hu := toNat_of_toInt v
+  have hlt : v.toUInt64.toNat < 2 ^ 64 := v.toUInt64.toNat_lt
+  rw [and_f_toNat]
+  have hk : ∀ sh, ((Int64.ofNat sh).toBitVec.smod 64).toNat = sh →
+     ((v >>> (Int64.ofNat sh)).toUInt64.toNat : Int) = (v.toInt / ((2 ^ sh : Nat) : Int)) % 2 ^ 64 := fun sh h => shr_toNat v sh h
+  have : j = 1 ∨ j = 2 ∨ j = 3 ∨ j = 4 ∨ j = 5 ∨ j = 6 ∨ j = 7 ∨ j = 8 ∨ j = 9 ∨ j = 10 ∨ j = 11 ∨ j = 12 ∨ j = 13 ∨ j = 14 ∨ j = 15 := by omega
+  rcases this with rfl | rfl | rfl | rfl | rfl | rfl | rfl | rfl | rfl | rfl | rfl | rfl | rfl | rfl | rfl
+  · have k := hk 4 (by decide); simp only [Nat.reducePow, Nat.reduceMul] at k ⊢; omega
+  · have k := hk 8 (by decide); simp only [Nat.reducePow, Nat.reduceMul] at k ⊢; omega
+  · have k := hk 12 (by decide); simp only [Nat.reducePow, Nat.reduceMul] at k ⊢; omega
+  · have k := hk 16 (by decide); simp only [Nat.reducePow, Nat.reduceMul] at k ⊢; omega
+  · have k := hk 20 (by decide); simp only [Nat.reducePow, Nat.reduceMul] at k ⊢; omega
+  · have k := hk 24 (by decide); simp only [Nat.reducePow, Nat.reduceMul] at k ⊢; omega
+  · have k := hk 28 (by decide); simp only [Nat.reducePow, Nat.reduceMul] at k ⊢; omega
+  · have k := hk 32 (by decide); simp only [Nat.reducePow, Nat.reduceMul] at k ⊢; omega
+  · have k := hk 36 (by decide); simp only [Nat.reducePow, Nat.reduceMul] at k ⊢; omega
+  · have k := hk 40 (by decide); simp only [Nat.reducePow, Nat.reduceMul] at k ⊢; omega
+  · have k := hk 44 (by decide); simp only [Nat.reducePow, Nat.reduceMul] at k ⊢; omega
+  · have k := hk 48 (by decide); simp only [Nat.reducePow, Nat.reduceMul] at k ⊢; omega
+  · have k := hk 52 (by decide); simp only [Nat.reducePow, Nat.reduceMul] at k ⊢; omega
+  · have k := hk 56 (by decide); simp only [Nat.reducePow, Nat.reduceMul] at k ⊢; omega
+  · have k := hk 60 (by decide); simp only [Nat.reducePow, Nat.reduceMul] at k ⊢; omega
+
+theorem hexDigitB_fin : ∀ n : Fin 16, hexDigitB (UInt64.ofNat n.val) = hexDigit n.val := by decide +kernel
+theorem hexDigit_ne_fin : ∀ n : Fin 16, 0 < n.val → hexDigit n.val ≠ 48 := by decide +kernel
+
+theorem hexDigitB_spec (c : UInt64) (h : c.toNat < 16) : hexDigitB c = hexDigit c.toNat := by
+  have := hexDigitB_fin ⟨c.toNat, h⟩
+  simpa using this
+
+theorem hexDigit_ne_48 (d : Nat) (h0 : 0 < d) (h : d < 16) : hexDigit d ≠ 48 := hexDigit_ne_fin ⟨d, h⟩ h0
+
+/-- the nibble read by iteration `k + 1` of the loop -/
+def nibC (v : Int64) (k : Nat) : UInt64 := (v >>> (Int64.ofNat (4 * (k + 1)))).toUInt64 &&& 0xf
+
+theorem nibC_toNat (v : Int64) (k : Nat) (hk : k + 1 ≤ 15) : (nibC v k).toNat = v.toUInt64.toNat / 16 ^ (k + 1) % 16 :=
+  nib_eq v (k + 1) (by omega) hk
+
+theorem nibC_toInt (v : Int64) (k : Nat) (hk : k + 1 ≤ 15) : (nibC v k).toInt64.toInt = ((nibC v k).toNat : Int) := by
+  have h := nibC_toNat v k hk
+  have hlt : (nibC v k).toNat < 16 := by rw [h]; exact Nat.mod_lt _ (by decide)
+  have : (nibC v k).toInt64.toInt = ((nibC v k).toNat : Int).bmod (2 ^ 64) := by
+    show (nibC v k).toBitVec.toInt = _
+    exact BitVec.toInt_eq_toNat_bmod _
+  rw [this, Int.bmod_eq_of_le] <;> omega
+
+theorem hexLoop_succ (v : Int64) (k : Nat) (n s : Int64) (acc : Bytes) (hr : n.toInt + 1 < 2 ^ 63) :
+    hexLoop v (k + 1) n s acc =
+      hexLoop v k (n + 1) (s + (nibC v k).toInt64)
+        (if (s + (nibC v k).toInt64 != 0 || decide (n ≥ 16)) = true then acc ++ [hexDigitB (nibC v k)] else acc) := by
+  have h1 := Int64.le_toInt n
+  have h1' : (1 : Int64).toInt = 1 := by decide
+  have hr' : -2 ^ 63 ≤ n.toInt + (1 : Int64).toInt ∧ n.toInt + (1 : Int64).toInt < 2 ^ 63 := by rw [h1']; omega
+  simp only [hexLoop, sadd_eq, hr', and_self, if_true, nibC]
+  rfl
+
+theorem toInt_succ (n : Int64) (hr : n.toInt + 1 < 2 ^ 63) : (n + 1).toInt = n.toInt + 1 := by
+  have h1 := Int64.le_toInt n
+  have h1' : (1 : Int64).toInt = 1 := by decide
+  rw [toInt_add_of_range n 1 (by rw [h1']; omega), h1']
+
+theorem ge16_iff (n : Int64) : (n ≥ 16) ↔ 16 ≤ n.toInt := by
+  show (16 : Int64) ≤ n ↔ _
+  rw [Int64.le_iff_toInt_le]; rfl
+
+theorem ne_zero_of_toInt_pos (s : Int64) (h : 0 < s.toInt) : (s != 0) = true := by
+  apply bne_iff_ne.mpr
+  intro e; rw [e] at h; simp at h
+
+/-- Once a digit has been printed (a non-zero nibble was seen, or the pad counter reached 16) all the
+remaining nibbles are printed. -/
+theorem hexLoop_all (v : Int64) : ∀ (k : Nat), k ≤ 15 → ∀ (n s : Int64) (acc : Bytes), n.toInt + k < 2 ^ 63 →
+    (16 ≤ n.toInt ∨ (0 < s.toInt ∧ s.toInt + 15 * k < 2 ^ 62)) →
+    hexLoop v k n s acc = .ok (acc ++ hexFixed v.toUInt64.toNat (k + 1)) := by
   intro k
   induction k with
-  | zero => intro n s acc h; omega
+  | zero =>
+    intro _ n s acc _ _
+    simp only [hexLoop, hexFixed, Nat.pow_zero, Nat.div_one]
+    rw [hexDigitB_spec _ (by rw [and_f_toNat]; exact Nat.mod_lt _ (by decide)), and_f_toNat]
   | succ k ih =>
-    intro n s acc _ h
-    have h1 := Int64.le_toInt n
-    have h1' : (1 : Int64).toInt = 1 := by decide
-    simp only [hexLoop, sadd_eq, h1']
-    by_cases hr : -2 ^ 63 ≤ n.toInt + 1 ∧ n.toInt + 1 < 2 ^ 63
-    · rw [if_pos hr]
-      simp only
-      have ht := toInt_add_of_range n 1 (by rw [h1']; exact hr)
-      apply ih
-      · omega
-      · rw [ht, h1']; omega
-    · rw [if_neg hr]
+    intro hk n s acc hn hc
+    have hnib := nibC_toNat v k hk
+    have hlt : (nibC v k).toNat < 16 := by rw [hnib]; exact Nat.mod_lt _ (by decide)
+    have hci := nibC_toInt v k hk
+    have hs1 := Int64.le_toInt s
+    rw [hexLoop_succ v k n s acc (by omega)]
+    have hn1 := toInt_succ n (by omega)
+    have hcond : (s + (nibC v k).toInt64 != 0 || decide (n ≥ 16)) = true := by
+      rcases hc with h16 | ⟨hs, hb⟩
+      · simp [(ge16_iff n).mpr h16]
+      · have : (s + (nibC v k).toInt64).toInt = s.toInt + (nibC v k).toNat := by
+          rw [toInt_add_of_range _ _ (by rw [hci]; omega), hci]
+        rw [ne_zero_of_toInt_pos _ (by rw [this]; omega)]; rfl
+    rw [if_pos hcond, ih (by omega) _ _ _ (by rw [hn1]; omega) ?_]
+    · rw [List.append_assoc, hexDigitB_spec _ hlt, hnib]; rfl
+    · rcases hc with h16 | ⟨hs, hb⟩
+      · left; rw [hn1]; omega
+      · right
+        have : (s + (nibC v k).toInt64).toInt = s.toInt + (nibC v k).toNat := by
+          rw [toInt_add_of_range _ _ (by rw [hci]; omega), hci]
+        rw [this]; omega
+
+/-- The digit loop entered with nothing printed yet (`s = 0`): the remaining `k + 1` nibbles with their
+leading zeros removed while the running pad counter is below 16. -/
+theorem hexLoop_strip (v : Int64) : ∀ (k : Nat), k ≤ 15 → ∀ (n : Int64) (acc : Bytes), n.toInt + k < 2 ^ 63 →
+    hexLoop v k n 0 acc =
+      .ok (acc ++ stripZeros (max 1 (min (n.toInt + k - 15) (k + 1))).toNat (hexFixed v.toUInt64.toNat (k + 1))) := by
+  intro k
+  induction k with
+  | zero =>
+    intro _ n acc _
+    simp only [hexLoop, hexFixed, Nat.pow_zero, Nat.div_one]
+    rw [hexDigitB_spec _ (by rw [and_f_toNat]; exact Nat.mod_lt _ (by decide)), and_f_toNat]
+    have : ¬ ((max 1 (min (n.toInt + ((0 : Nat) : Int) - 15) (((0 : Nat) : Int) + 1))).toNat < ([] : List UInt8).length + 1) := by
+      simp only [List.length_nil]; omega
+    simp only [stripZeros, this, and_false, if_false]
+  | succ k ih =>
+    intro hk n acc hn
+    have hnib := nibC_toNat v k hk
+    have hlt : (nibC v k).toNat < 16 := by rw [hnib]; exact Nat.mod_lt _ (by decide)
+    have hci := nibC_toInt v k hk
+    rw [hexLoop_succ v k n 0 acc (by omega)]
+    have hn1 := toInt_succ n (by omega)
+    have hs' : ((0 : Int64) + (nibC v k).toInt64).toInt = (nibC v k).toNat := by
+      rw [toInt_add_of_range _ _ (by rw [hci]; simp; omega), hci]; simp
+    have hlen : (hexFixed v.toUInt64.toNat (k + 1)).length = k + 1 := hexFixed_length _ _
+    have hfix : hexFixed v.toUInt64.toNat (k + 1 + 1) = hexDigit (nibC v k).toNat :: hexFixed v.toUInt64.toNat (k + 1) := by
+      rw [hnib]; rfl
+    rw [hfix]
+    by_cases hz : (nibC v k).toNat = 0
+    · -- a zero nibble
+      have hs0 : (0 : Int64) + (nibC v k).toInt64 = 0 := by
+        apply Int64.toInt_inj.mp; rw [hs', hz]; rfl
+      by_cases h16 : 16 ≤ n.toInt
+      · have hcond : ((0 : Int64) + (nibC v k).toInt64 != 0 || decide (n ≥ 16)) = true := by
+          simp [(ge16_iff n).mpr h16]
+        rw [if_pos hcond, hexLoop_all v k (by omega) _ _ _ (by rw [hn1]; omega) (.inl (by rw [hn1]; omega))]
+        rw [List.append_assoc, hexDigitB_spec _ hlt]
+        have : ¬ ((max 1 (min (n.toInt + ((k + 1 : Nat) : Int) - 15) (((k + 1 : Nat) : Int) + 1))).toNat <
+            (hexFixed v.toUInt64.toNat (k + 1)).length + 1) := by
+          rw [hlen]; omega
+        simp only [stripZeros, this, and_false, if_false]; rfl
+      · have hcond : ¬ ((0 : Int64) + (nibC v k).toInt64 != 0 || decide (n ≥ 16)) = true := by
+          have : ¬ (n ≥ 16) := fun h => h16 ((ge16_iff n).mp h)
+          simp [hs0, this]
+        rw [if_neg hcond, hs0, ih (by omega) _ _ (by rw [hn1]; omega), hn1]
+        have hd : hexDigit (nibC v k).toNat = 48 := by rw [hz]; rfl
+        have hk2 : (max 1 (min (n.toInt + ((k + 1 : Nat) : Int) - 15) (((k + 1 : Nat) : Int) + 1))).toNat <
+            (hexFixed v.toUInt64.toNat (k + 1)).length + 1 := by
+          rw [hlen]; omega
+        have hkeep : (max 1 (min (n.toInt + 1 + (k : Int) - 15) ((k : Int) + 1))).toNat =
+            (max 1 (min (n.toInt + ((k + 1 : Nat) : Int) - 15) (((k + 1 : Nat) : Int) + 1))).toNat := by
+          omega
+        conv => rhs; rw [stripZeros]
+        simp only [hd, hk2, and_self, if_true]
+        rw [hkeep]
+    · -- a non-zero nibble: printed, and everything after it
+      have hpos : 0 < (nibC v k).toNat := Nat.pos_of_ne_zero hz
+      have hcond : ((0 : Int64) + (nibC v k).toInt64 != 0 || decide (n ≥ 16)) = true := by
+        rw [ne_zero_of_toInt_pos _ (by rw [hs']; omega)]; rfl
+      rw [if_pos hcond, hexLoop_all v k (by omega) _ _ _ (by rw [hn1]; omega) (.inr ⟨by rw [hs']; omega, by rw [hs']; omega⟩)]
+      rw [List.append_assoc, hexDigitB_spec _ hlt]
+      have hd : hexDigit (nibC v k).toNat ≠ 48 := hexDigit_ne_48 _ hpos hlt
+      simp only [stripZeros, hd, false_and, if_false]; rfl
+
+/-- **`HEXExpression::hex(val, n)` is the specification**, for every value and every pad count
+(negative, zero, 1..16, beyond 16 up to INT64_MAX): no hazard, no exclusion. -/
+theorem hexStr_spec (v n : Int64) : hexStr v n = .ok (Spec.Text.hex v.toInt n.toInt) := by
+  unfold hexStr
+  have hc : (hexClamp n).toInt = min n.toInt 16 := by
+    unfold hexClamp
+    have e : (16 : Int64).toInt = 16 := by decide
+    split
+    · rename_i h
+      have := Int64.lt_iff_toInt_lt.mp h
+      rw [e]; omega
+    · rename_i h
+      have : ¬ ((16 : Int64).toInt < n.toInt) := fun h' => h (Int64.lt_iff_toInt_lt.mpr h')
+      omega
+  rw [hexLoop_strip v 15 (by decide) _ _ (by rw [hc]; omega), hc, List.nil_append]
+  unfold Spec.Text.hex
+  have hu : v.toUInt64.toNat = (v.toInt % 2 ^ 64).toNat := by
+    have := toNat_of_toInt v
+    omega
+  rw [hu]
+  congr 2
+  omega
 
 /-! ### upper / lower / trim -/
 
